@@ -6,6 +6,7 @@ import LunarVerif.Proofs.C12Live
 import LunarVerif.Proofs.C12Conc
 import LunarVerif.Proofs.C12Shared
 import LunarVerif.Proofs.C12SharedT
+import LunarVerif.Proofs.C12Keys
 /-!
 # C12 — Stored responses are replayed only for the same key and only while fresh
 
@@ -169,9 +170,32 @@ theorem hit_fresh_in_elapsed_time (cfg : Cfg) (hmax : 0 ≤ cfg.max) (evs : List
   | none => simp [hd] at hr
   | some d => simp only [hd, decide_eq_true_eq] at hr; exact ⟨d, rfl, hr.2⟩
 
+/-- The association list standing for the Go map holds ONE pair per key in every reachable state (any history
+    from the empty cache), so `entries.length` — the `n` a `probe` answers, compared with `len(cache)` of the
+    implementation — is the number of stored keys and first-wins `find?` is the map lookup. -/
+theorem one_entry_per_key (cfg : Cfg) (evs : List (Ev κ ν)) :
+    (keys (final (cfg.init : Cache κ ν) evs).entries).Nodup :=
+  final_keysNodup evs _ (init_keysNodup cfg)
+
+/-- … and a key is among them exactly when the lookup answers. -/
+theorem lookup_iff_stored (cfg : Cfg) (evs : List (Ev κ ν)) (k : κ) :
+    (find? k (final (cfg.init : Cache κ ν) evs).entries).isSome = true ↔
+      k ∈ keys (final (cfg.init : Cache κ ν) evs).entries :=
+  find?_isSome_iff k _
+
+/-- A successful store never grows the number of pairs by more than one, and a re-store of a held key keeps it:
+    after `set k …` there is exactly one pair for `k` (none when the TTL is ≤ 0). -/
+theorem set_leaves_at_most_one_pair (cfg : Cfg) (evs : List (Ev κ ν)) (k : κ) (v : ν) (ttl : Int) (sz : Nat) :
+    ((keys (set (final (cfg.init : Cache κ ν) evs) k v ttl sz).1.entries).count k) ≤ 1 :=
+  List.nodup_iff_count.mp (set_keysNodup _ k v ttl sz (final_keysNodup evs _ (init_keysNodup cfg))) k
+
 end
 
 /-! ### non-vacuity (raw cache): hits, boundary, stale sleeper, size refusal on concrete runs -/
+
+/-- re-storing a held key and letting an old sleeper fire: still one pair per key, two keys held -/
+example : (keys (final (Cache.init 0 true 10 : Cache Nat Nat)
+    [.set 1 7 5 3, .set 2 9 5 1, .skip 6, .set 1 8 5 2, .fire 0, .set 1 8 5 2]).entries) = [1, 2] := by decide
 
 /-- stored at 100 with ttl 5: hit at 105 (`now > expiry` is strict), miss at 106. -/
 example : ((run (Cache.init 100 true 10 : Cache Nat Nat)
